@@ -186,6 +186,11 @@ class Impl:
             return self.put_arr(t[1], FlodymArray(dims=dims, values=vals))
         if op == "full":
             return self.put_arr(t[1], FlodymArray.full(self.get(t[2], DimensionSet), num(t[3])))
+        if op in ("fullnd", "fulllike"):
+            v = self.get(t[3], np.ndarray)
+            if op == "fullnd":
+                return self.put_arr(t[1], FlodymArray.full(self.get(t[2], DimensionSet), v))
+            return self.put_arr(t[1], FlodymArray.full_like(self.get(t[2], FlodymArray), v))
         if op == "scalar":
             return self.put_arr(t[1], FlodymArray.scalar(num(t[2])))
         if op == "copy":
